@@ -12,6 +12,32 @@ FN = "best_starting_depth"
 HAS = "has_best_starting_depth"
 
 
+def depth0_bound(ctx, crate, clause="depth0-bound-siblings"):
+    """the three sibling helpers use one and the same bound for base cells (depth 0), and it is
+    the distance from the centre of a polar base cell to the pole, pi/2 - asin(2/3)"""
+    import math
+    from sym import C
+    from rules.common import strip_generics
+    want = math.pi / 2 - math.asin(2.0 / 3.0)
+    vals = {}
+    for fn, args in (("largest_center_to_vertex_distance", [C('u8', 0), None, None]), ("largest_center_to_vertex_distance_with_radius", [C('u8', 0), None, None, None])):
+        b = ctx.anchor(crate, fn, clause)
+        if b is None: continue
+        e = Engine(crate); r = e.run(fn, args); ctx.functions |= e.visited_fns
+        vals[fn] = cval(r.ret) if r.returns else None
+    fn = "largest_center_to_vertex_distances_with_radius"
+    b = ctx.anchor(crate, fn, clause)
+    if b is not None:
+        e = Engine(crate, opaque={"get_or_create"}); e.run(fn, [C('u8', 0), None, None, None, None]); ctx.functions |= e.visited_fns
+        ps = [ev for ev in e.events.values() if ev.callee and strip_generics(ev.callee).endswith("Vec::push") and len(ev.site) == 2 and cval(ev.args[1]) is not None]
+        vals[fn] = cval(ps[0].args[1]) if len(ps) == 1 else None
+        # and the remaining depths start at 1 after the depth-0 entry
+    ok = len(vals) == 3 and all(v is not None and abs(v - want) < 1e-15 for v in vals.values()) and len(set(vals.values())) == 1
+    ctx.report(clause, "largest_center_to_vertex_distance*:depth0", ok,
+               "all three siblings use %r = pi/2 - asin(2/3) for base cells" % want if ok else "the siblings disagree or differ from pi/2 - asin(2/3) = %r: %s" % (want, vals),
+               at=b.span if b else None, kind="N", sample={"depth0_values": vals, "expected": want})
+
+
 def run(ctx):
     crate = ctx.crate("rel")
     s = crate.statics.get(TABLE)
@@ -68,4 +94,5 @@ def run(ctx):
         entry = [f for f in cmp_facts(r.facts)] if r.returns else []
         ok2 = any(op == "lt" and a == param(pname) and cval(c) == T[0] and pos for op, a, c, pos in entry)
         ctx.report("refusal", FN + ":asserts-r<T[0]", ok2, "every normal return of best_starting_depth has r < T[0] = %r as a succeeded comparison (NaN and larger radii panic)" % T[0], at=b.span)
+    depth0_bound(ctx, crate)
     ctx.not_decided("that the tabulated limits and the linear/parabolic envelopes of ConstantsC2V are upper bounds of real cell sizes (spherical trigonometry); largest_center_to_vertex_distance*")
